@@ -443,7 +443,19 @@ pub fn c08_units(seed: u64, thorough: bool) -> Vec<Unit> {
         // regex
         ("regex:invalid-literal", s_, "validate(regex = \"(unclosed\")", "pub struct T(String);", Reject, "regex"),
         ("regex:invalid-literal-class", s_, "validate(regex = \"[z-a]\")", "pub struct T(String);", Reject, ""),
+        ("regex:invalid-literal-repetition", s_, "validate(regex = \"a{2,1}\")", "pub struct T(String);", Reject, ""),
+        ("regex:invalid-literal-escape", s_, "validate(regex = \"\\\\y\")", "pub struct T(String);", Reject, ""),
+        ("regex:invalid-literal-unicode-class", s_, "validate(regex = \"\\\\p{NoSuchClass}\")", "pub struct T(String);", Reject, ""),
+        ("regex:invalid-literal-flag", s_, "validate(regex = \"(?z)a\")", "pub struct T(String);", Reject, ""),
+        ("regex:unsupported-lookahead", s_, "validate(regex = \"a(?=b)\")", "pub struct T(String);", Reject, ""),
+        ("regex:unsupported-backreference", s_, "validate(regex = \"(a)\\\\1\")", "pub struct T(String);", Reject, ""),
+        // parses, but the compiled program exceeds the size limit: `Regex::new` fails, so the validator could never be built
+        ("regex:too-big-unicode-repetition", s_, "validate(regex = \"^\\\\pL{2000}$\")", "pub struct T(String);", Reject, ""),
+        ("regex:too-big-nested-repetition", s_, "validate(regex = \"((a{100}){100}){100}\")", "pub struct T(String);", Reject, ""),
+        ("regex:dangling-repetition", s_, "validate(regex = \"*a\")", "pub struct T(String);", Reject, ""),
         ("regex:valid-literal", s_, "validate(regex = \"^[a-z]+$\")", "pub struct T(String);", Accept, ""),
+        ("regex:valid-literal-unicode-class", s_, "validate(regex = \"^\\\\pL{2,20}$\")", "pub struct T(String);", Accept, ""),
+        ("regex:valid-literal-escapes", s_, "validate(regex = \"^\\\\d+\\\\.\\\\d*$\")", "pub struct T(String);", Accept, ""),
         ("regex:not-a-string", s_, "validate(regex = 5)", "pub struct T(String);", Reject, ""),
     ];
     for (class, inner, attr, strukt, exp, err) in items {
